@@ -6,8 +6,8 @@ NA['C18'] = ('quantifies over thread schedules: sequential function contracts ca
 claim('C01', 'other',
       'Proved kernel + bounded: every ParticleMixin occurrence predicate and the OccursCalculator arithmetic are proved equal to the '
       'XSD occurrence spec for all integers (deductive, unbounded); the content-model interpreter itself (ModelVisitor/XsdGroup.raw_decode) '
-      'is out of reach of the VC generator and is covered only by a bounded run-time contract (is_valid(doc(w)) <=> w in L(m)) over an exhaustively enumerated, baselined '
-      'enumerated scope of models and words, labelled bounded.',
+      'is out of reach of the VC generator and is covered only by a bounded run-time contract (is_valid(doc(w)) <=> w in L(m)) over two exhaustively enumerated, baselined '
+      'scopes of models (nested group first / sibling first, 141 344 models) and all words up to length 5, labelled bounded.',
       'Trusted: pyvc encoding, z3/cvc5, spec functions as a reading of XSD Structures 3.8/3.9; the bounded part proves nothing beyond its scope.',
       'DESIGN.md 5/C01')
 
@@ -23,18 +23,21 @@ claim('C16', 'proof',
       'DESIGN.md 5/C16')
 
 claim('C15', 'other',
-      'Proved leaves + bounded: XsdAnyElement.is_overlap is proved to answer exactly "the two denoted sets intersect" (shared with C16); the decision '
-      'itself (check_model / distinguishable_paths) has no per-function specification other than the property and is covered by a bounded '
-      'run-time contract on the real builder: XMLSchema10/11 raises XMLSchemaModelError <=> an independent Glushkov position-automaton decides '
-      'the model violates UPA, over an exhaustively enumerated scope of 73 528 models per class (quick: a quarter of it). Disagreements of the '
-      'unchanged tree are listed one by one in baseline/C15_instances.json; any other disagreement is a violation.',
-      'Trusted: the independent UPA oracle (bounded/cm.py), untyped leaves (EDC trivially true in scope). Bounded, not proved.',
+      'Proved leaves + bounded: XsdAnyElement.is_overlap is proved to answer exactly "the two denoted sets intersect" (shared with C16); the pairwise body of '
+      'check_model is under a statement contract (an inconsistent pair always ends in a model error whatever the UPA shortcuts; an XSD 1.1 wildcard/element '
+      'pair is never an error; separable consistent pairs pass silently). The UPA decision itself (distinguishable_paths) has no per-function specification other '
+      'than the property and is covered by a bounded run-time contract on the real builder: XMLSchema10/11 raises XMLSchemaModelError <=> an independent Glushkov '
+      'position-automaton decides the model violates UPA, over exhaustively enumerated scopes of 143 416 models per class (quick: a quarter), plus an EDC family '
+      '(x:T1, y, x:T2 in three nestings, every type pair). Disagreements of the unchanged tree are listed one by one in baseline/C15_instances.json; any other disagreement is a violation.',
+      'Trusted: the independent UPA oracle (bounded/cm.py); the element relations are uninterpreted in the pair-body contract. The UPA part is bounded, not proved.',
       'DESIGN.md 5/C15')
 
 claim('C14', 'other',
       'Proved kernels + bounded: has_occurs_restriction (True => every admitted count is admitted by the base), OccursCalculator arithmetic, '
-      'XsdWildcard.is_restriction (True => denoted set included, processContents not weakened; same and different target namespaces) are proved '
-      'for all inputs. The group restriction checkers are out of reach and covered by a bounded contract on the real builder: accepted '
+      'XsdWildcard.is_restriction (True => denoted set included, processContents not weakened; same and different target namespaces) and '
+      'XsdGroup.has_occurs_restriction against an element / wildcard particle (True => group occurrence x sum - or min/max for a choice - of the particle '
+      'occurrences lies inside the other range, for any number of particles) are proved '
+      'for all inputs. The group restriction checkers proper are out of reach and covered by a bounded contract on the real builder: accepted '
       'restriction => L(derived) subset of L(base) on all words <= 5, for 5 955 bases x <= 40 systematic candidates x 2 classes; facet pairs '
       'and attribute-use pairs exhaustively over boundary catalogues.',
       'Trusted: the independent language matcher; words up to length 5. XSD 1.1 widening restrictions of the unchanged tree are listed in baseline/C14_instances.json.',
@@ -72,8 +75,10 @@ claim('C05', 'other',
       'round trip for 5 lossless converters and strict-encode soundness on mutated data are bounded run-time contracts over generated documents.',
       'Thin proved kernel (stated as such). Encoding performs no identity-constraint checks: listed finding.', 'DESIGN.md 5/C05')
 claim('C06', 'other',
-      'Bounded only for the equality lazy = eager (errors in order, data, iteration multiset, thin and non-thin); the proved part is the limit '
-      'counter contract of _lazy_iterparse shared with C11 (same depth accounting in both loaders). Depth 2 reported only.',
+      'Proved kernel + bounded: loop-body equivalence of the eager and the lazy loader - for every event kind and every pre-state both loop bodies leave equal '
+      'namespace stack, pending declarations and per-node maps (container operations uninterpreted), hence both attach the same in-scope namespaces to every node; '
+      'the limit counter contract of _lazy_iterparse shared with C11. The equality lazy = eager of errors (in order), data and iteration multiset, thin and non-thin, '
+      'is a bounded run-time contract over generated documents (two schema templates, nested and redundant namespace declarations, childless roots). Depth 2 reported only.',
       'The order in which a lazy resource yields the descendants of a chunk is pinned by the test-suite and differs from document order: compared as multisets.', 'DESIGN.md 5/C06')
 claim('C07', 'other',
       'Proved kernel + bounded: statement contracts on the xsi:nil block and the xsi:type block of XsdElement.raw_decode (nilled <=> nillable and true and no '
@@ -82,16 +87,21 @@ claim('C07', 'other',
       'is_derived and get_instance_type are uninterpreted in the proofs and exercised only by the bounded part; XPath tests of type alternatives are elementpath.', 'DESIGN.md 5/C07')
 claim('C08', 'other',
       'Proved kernel + bounded: IdentityCounter.increase (exactly one duplicate error per repeated tuple), KeyrefCounter.increase, reset and '
-      'KeyrefCounter.iter_errors (loop invariant: an error exactly for complete dangling tuples) are proved; selection of nodes and fields is XPath '
-      '(elementpath) and is covered by a bounded contract against key_table_ok over exhaustive small tables with lexical variants, and ID/IDREF documents.',
-      'xs:unique over incomplete tuples is outside the deciding scope; elements that exist only through xsi:type are invisible to selectors (observation in DESIGN.md).', 'DESIGN.md 5/C08')
+      'KeyrefCounter.iter_errors (loop invariant: an error exactly for complete dangling tuples) and the ID/IDREF block of XsdAtomicBuiltin.raw_decode (duplicate '
+      'exactly when registered as an ID before) are proved; selection of nodes and fields is XPath (elementpath) and is covered by a bounded contract against '
+      'key_table_ok over exhaustive small tables with lexical variants (seven field types, three of them unions), a keyref referring to a key declared on a repeated '
+      'descendant (0-2 instances), and ID/IDREF documents.',
+      'xs:unique over incomplete tuples is outside the deciding scope; the table propagation across repeated descendants is a listed finding; elements that exist only through xsi:type are invisible to selectors (observation in DESIGN.md).', 'DESIGN.md 5/C08')
 claim('C09', 'other',
-      'Bounded only: permutations, include splits, location spellings, rebuild, copy of the maps, pickle, import order - each arrangement gives the same '
-      'global components, errors and data on four probes. No per-function contract within reach expresses "a factory is insensitive to when it runs".',
+      'Thin proved kernel + bounded: StagedMap (__getitem__ builds on demand and returns the built component, load refuses a second declaration of a name and '
+      'commutes for distinct names, _build_global) and XsdGlobals.clear (every derived map is emptied on every path: a rebuild starts from nothing) are under contract; '
+      'permutations, include splits, location spellings, rebuild, copy of the maps, pickle, import order are a bounded contract - each arrangement gives the same '
+      'global components, errors and data on five probes (with a keyref referring to a key declared on another element).',
       'Thin: one hand-written family of 14 forward-referencing globals, not the corpus.', 'DESIGN.md 5/C09')
 claim('C10', 'other',
-      'Proved kernel + bounded: ValidationContext.clear resets every status slot (slot list read from the real class) and IdentityCounter.reset are proved; '
-      'absence of residue between calls is a bounded contract over seeded call histories compared with a fresh schema.',
+      'Proved kernel + bounded: ValidationContext.clear resets every status slot (slot list read from the real class) and IdentityCounter.reset are proved; a frame '
+      'obligation over the 113 validation-path methods (writes to self within the stated frame; writes through component-holding locals only on objects created in '
+      'the same statement list) is decided syntactically on the real AST; absence of residue between calls is a bounded contract over seeded call histories compared with a fresh schema.',
       'A-CACHE (memo caches are transparent) is assumed by the encoding.', 'DESIGN.md 5/C10')
 claim('C11', 'other',
       'Proved kernel + bounded: the depth / element counters of both loaders (XMLResourceExceeded raised exactly when a limit is exceeded; a document at '
@@ -113,13 +123,16 @@ claim('C17', 'other',
       'Proved kernel + bounded: under the representation invariant R-INV, unmap_qname(map_qname(Q(u,l))) = Q(u,l) for all strings, map_qname and '
       'unmap_qname against their case specifications (cvc5/z3 strings); R-INV preservation by __setitem__/__delitem__ and by stacked '
       'set_xmlns_context, and "every decoded key resolves to the expanded name of its node" are bounded run-time contracts.',
-      'set_xmlns_context is not within reach of the VC generator (loops over contexts): bounded stand-in. Encode restoration decided up to three element levels.', 'DESIGN.md 5/C17')
+      'set_xmlns_context is not within reach of the VC generator (loops over contexts): bounded stand-in (exhaustive over two-level declaration maps of 3 prefixes x 3 URIs). Encoding an xmlns="" undeclaration is a listed finding.', 'DESIGN.md 5/C17')
 claim('C19', 'other',
       'Proved kernel + bounded: the positional step of etree_getpath (loop invariant with a counting function: position and sibling count are exact, a predicate '
-      'is emitted iff there are same-tag siblings) and error.elem defaulting in raise_or_collect are proved; "a single fault is reported at the node or its '
+      'is emitted iff there are same-tag siblings), error.elem defaulting in raise_or_collect and the consumption of pushed pattern facets on every exit of '
+      'XsdUnion.raw_decode (no stale facet reaches a later node) are proved; "a single fault is reported at the node or its '
       'parent, every path selects exactly error.elem" is a bounded contract over every node x 6 fault kinds.',
       'XPath evaluation of the path (elementpath) assumed.', 'DESIGN.md 5/C19')
 claim('C20', 'other',
-      'Bounded only: schema.find(path(e)) is the declaration that governed e (observed through the public validation_hook); iter_errors(path=p) equals the '
-      'whole-document errors restricted to the subtree; errors above a max_depth cut are unchanged.',
+      'Bounded-dominated: schema.find(path(e)) is the declaration that governed e (observed through the public validation_hook); iter_errors(path=p) equals the '
+      'whole-document errors restricted to the selected subtree(s), positional and non-positional paths with a unique constraint on a repeated intermediate element, '
+      'prefixed and default-namespace forms; errors above a max_depth cut are unchanged. The only obligation decided on the code itself is syntactic: the list the '
+      'resource iterator updates in place is never aliased in the path loop of iter_errors.',
       'The property is about XPath selection on the schema (elementpath): no per-function contract in /repo decides it.', 'DESIGN.md 5/C20')
